@@ -697,6 +697,71 @@ theorem dask_dict_one_entry_per_task (tb : Table) (g : DiGraph) (d : List Entry)
   have := congrArg List.length hk
   simpa using this
 
+/-! ## Several graphs on one scheduler: `call_workflow` from inside a running workflow -/
+
+/-- **scheduler_keys_distinct**: when any number of graphs are live on one
+    scheduler — the parent submitted by `run`, children (and grandchildren,
+    siblings …) submitted by `call_workflow` under pairwise distinct
+    `unique_name`s — all keys the scheduler sees are pairwise distinct, PROVIDED
+    every `as_dask_dict` call draws fresh keys (distinct `inst`: the uuid4
+    freshness assumption, keys injective in (graph instance, task)) — whatever the
+    task names and positions in the individual graphs are. -/
+theorem scheduler_keys_distinct (subs : List Submission)
+    (hfresh : (subs.map (·.inst)).Nodup)
+    (hnames : (subs.map (·.rename)).Nodup)
+    (hdict : ∀ s ∈ subs, (s.dict.map (·.key)).Nodup) :
+    (schedulerKeys subs).Nodup := by
+  unfold schedulerKeys
+  rw [List.Nodup, List.pairwise_flatMap]
+  constructor
+  · intro s hs
+    unfold Submission.keys
+    rw [List.pairwise_map]
+    have := hdict s hs
+    rw [List.Nodup, List.pairwise_map] at this
+    exact this.imp (fun hne heq => hne (Submission.key_inj s _ _ heq))
+  · rw [List.Nodup, List.pairwise_map] at hfresh hnames
+    refine (hfresh.and hnames).imp ?_
+    rintro a b ⟨hi, hr⟩ x hx y hy hxy
+    unfold Submission.keys at hx hy
+    obtain ⟨ea, _, rfl⟩ := List.mem_map.mp hx
+    obtain ⟨eb, _, rfl⟩ := List.mem_map.mp hy
+    cases hka : ea.key <;> cases hkb : eb.key <;> simp [Submission.key, hka, hkb] at hxy
+    · cases hra : a.rename <;> cases hrb : b.rename <;> simp [hra, hrb] at hxy hr
+      exact hr hxy
+    · cases hra : a.rename <;> simp [hra] at hxy
+    · cases hrb : b.rename <;> simp [hrb] at hxy
+    · exact hi hxy.1
+
+/-- The freshness assumption is needed: two live graphs whose keys are NOT drawn
+    freshly (same `inst`, e.g. keys made of task name and position) share keys as
+    soon as they have a task with the same number. -/
+theorem scheduler_keys_need_freshness :
+    let d : List Entry := [⟨.task 0, ⟨0, false, []⟩, []⟩, ⟨.results, ⟨1, false, []⟩, [.task 0]⟩]
+    (schedulerKeys [⟨7, none, d⟩, ⟨7, some 1, d⟩]).Nodup = False ∧
+    (schedulerKeys [⟨7, none, d⟩, ⟨8, some 1, d⟩]).Nodup := by
+  refine ⟨?_, by decide⟩
+  simp only [eq_iff_iff, iff_false]
+  decide
+
+/-- **shared_scheduler_sound**: on a scheduler whose (union) graph `tgU` agrees
+    with a sub-workflow's own graph `tg` on that sub-workflow's keys `K` (which is
+    what distinct keys give: nobody else defines them) and `K` is closed under
+    dependencies, every key of the sub-workflow has exactly the value its own
+    graph specifies — so `call_workflow` returns the child's own result. -/
+theorem shared_scheduler_sound {κ V : Type} (tgU tg : TaskGraph κ V) (K : κ → Prop)
+    (hclosed : ∀ k, K k → ∀ d ∈ tg.deps k, K d)
+    (hagree : ∀ k, K k → tgU.deps k = tg.deps k ∧ tgU.fn k = tg.fn k) :
+    ∀ n k, K k → den tgU n k = den tg n k := by
+  intro n
+  induction n with
+  | zero => intro k _; rfl
+  | succ n ih =>
+    intro k hk
+    simp only [den]
+    rw [(hagree k hk).1, (hagree k hk).2,
+      lookupAll_congr (fun d hd => ih d (hclosed k hk d hd))]
+
 /-- **builder_ops_exact (`+`)**: the union of tasks and of edges. -/
 theorem plus_exact (g h : DiGraph) (hg : WF g) (hh : WF h) :
     WF (plus g h) ∧ (∀ x, x ∈ (plus g h).nodes ↔ x ∈ g.nodes ∨ x ∈ h.nodes) ∧
